@@ -3153,6 +3153,24 @@ def copy_bdd(
         logger.warning(
             'copying node to same BDD manager')
         return u
+    return _copy_bdd_to(to_bdd, u, from_bdd)
+
+
+@_try_to_reorder
+def _copy_bdd_to(
+        to_bdd:
+            BDD,
+        u:
+            _Ref,
+        from_bdd:
+            BDD
+        ) -> _Ref:
+    """Copy BDD of node `u` `from_bdd` `to_bdd`.
+
+    Reordering of `to_bdd` restarts the copying,
+    because it can collect the nodes copied so far,
+    and changes the levels in `to_bdd`.
+    """
     level_map = {
         from_bdd.level_of_var(var):
             to_bdd.level_of_var(var)
